@@ -87,9 +87,21 @@ def check(ctx):
         t = ctx.cmp_tests(vb, "Ne", lhs="call:fuel_tx::transaction::field::MintAmount::mint_amount", rhs="const:0", depth=1)
         ctx.test_leads_to_error("2.empty-recipient-nonzero-amount-rejects", vb, t, truth=True)
         tb = F.unit(f"{EX}::execute_transaction").root
-        nf = ctx.one_call(tb, f"{EX}::check_mint_is_not_found")
-        execs = tb.calls_to(f"{EX}::execute_chargeable_transaction", f"{EX}::execute_mint")
-        ctx.after_ok("2.nothing-after-mint", nf, execs, detail="no transaction is executed after the mint")
+        execs = [c for c in tb.calls_to(f"{EX}::execute_chargeable_transaction", f"{EX}::execute_mint") if c.bb in tb.live]
+        ctx.expect_sites("2.execution-arms", execs, at_least=2, what="execute_chargeable_transaction / execute_mint arms of execute_transaction")
+        nfs = [c for c in tb.calls_to(f"{EX}::check_mint_is_not_found") if c.bb in tb.live]
+        if len(nfs) == 1:
+            ctx.after_ok("2.nothing-after-mint", nfs[0], execs, detail="no transaction (chargeable or a second mint) is executed after the mint")
+        else:
+            # the check may live in the callees instead: then it must be the first thing each of them does
+            for e in execs:
+                cu = F.unit(e.path)
+                cbody = cu.root
+                inner = [c for c in cbody.calls_to(f"{EX}::check_mint_is_not_found") if c.bb in cbody.live]
+                others = [c for c in cbody.calls if c.bb in cbody.live and c not in inner and not c.path.startswith("core::")]
+                okc = len(inner) == 1 and all(cbody.path([0], [o_.bb], cut_blocks=[inner[0].bb]) is None for o_ in others)
+                ctx.add("2.nothing-after-mint", "DOM", okc, f"{e.name} at {e.where()} runs although a mint was already executed in this block: found_mint is not checked before it "
+                        "(a block [.., mint, mint'] would validate and mint the fees twice)" if not okc else f"{e.name} checks found_mint first", sites=[e.where()], site_key=f"nf:{e.name}:{e.bb}")
         fb = F.unit(f"{EX}::check_mint_is_not_found").root
         t = ctx.value_tests(fb, f"field:{ED}.found_mint")
         ctx.test_leads_to_error("2.found-mint-rejects", fb, t, truth=True)
